@@ -102,6 +102,10 @@ func lemma_C14_setattr(t uint8, value []byte) {
 		verifAssert(err != nil, "C14/other-attribute-types-refused")
 	}
 	if err != nil {
+		// a refused value leaves the message as it was: the attribute is not there
+		// (frame: nothing that existed before the call was written)
+		_, e1 := a.GetAttr(EapAkaPrimeAttrType(t))
+		verifAssert(e1 != nil, "C14/refused-value-adds-no-attribute")
 		return
 	}
 	g, e2 := a.GetAttr(EapAkaPrimeAttrType(t))
